@@ -91,6 +91,10 @@ func mfRenderDesc(c mfCase) (name, text string, files map[string]string) {
 		mapOld = `user: source.users[next]`
 		mapNew = func(v string) string { return `user: ` + v }
 	}
+	sfx := "" // the http mapping selects a field of the row, the grpc one the whole row
+	if proto == "http" {
+		sfx = ".user_id"
+	}
 	varOld := pick(`header = "yandex"`, `header: yandex`)
 	varNew := func(v string) string { return pick(`header = "`+v+`"`, `header: `+v) }
 	xpath := func(expr string) {
@@ -142,6 +146,14 @@ func mfRenderDesc(c mfCase) (name, text string, files map[string]string) {
 		d.rep("    postprocessors:\n", "    postprocessors:\n      -\n", 1)
 	case cls == "null_preproc":
 		d.rep("    preprocessors:\n", "    preprocessors:\n      -\n", 1)
+	case cls == "empty_plugin":
+		if proto == "http" {
+			d.rep(pick(`postprocessor "var/jsonpath"`, `type: var/jsonpath`), pick(`postprocessor ""`, `type: ''`), 1)
+		} else {
+			d.rep(pick(`postprocessor "assert/response"`, `type: assert/response`), pick(`postprocessor ""`, `type: ''`), 1)
+		}
+	case cls == "bool_key":
+		d.rep("  - name: auth_req\n", "  - name: auth_req\n    y: 1\n", 1)
 	case cls == "neg_weight":
 		d.rep(pick("weight           = 50", "weight: 50"), pick("weight           = -50", "weight: -50"), 1)
 	case cls == "var_randint_eq":
@@ -171,6 +183,14 @@ func mfRenderDesc(c mfCase) (name, text string, files map[string]string) {
 		d.rep(mapOld, mapNew("randInt(-9223372036854775808,9223372036854775807)"), 1)
 	case cls == "map_randstr_neg":
 		d.rep(mapOld, mapNew("randString(-1)"), 1)
+	case cls == "map_neg_index":
+		d.rep(mapOld, mapNew("source.users[-1]"+sfx), 1)
+	case cls == "map_empty_index":
+		d.rep(mapOld, mapNew("source.users[]"+sfx), 1)
+	case cls == "map_unclosed":
+		d.rep(mapOld, mapNew("source.users[0"), 1)
+	case cls == "map_huge_index":
+		d.rep(mapOld, mapNew("source.users[99999999999999999999]"+sfx), 1)
 	case cls == "map_bad_index":
 		d.rep(mapOld, mapNew("source.users[abc]"), 1)
 	case cls == "xpath_ok":
